@@ -4,8 +4,8 @@
    correspondence check on every run); [render] gives the message text.  The scopes are the ones lint visits: the global statement
    list and the body of each global function statement (a function nested in a function body is not visited: known finding F26). *)
 From Coq Require Import ZArith.
-From BS Require Import Model.Base Model.Num Model.Arith Model.ExprParser Model.Script Model.Interp Model.Lint
-     Proofs.C08 Proofs.C18 Proofs.C18Sim.
+From BS Require Import Model.Base Model.Num Model.Arith Model.ExprParser Model.Script Model.Interp Model.LibCore Model.Lint
+     Proofs.C08 Proofs.C18 Proofs.C18Sim Proofs.C18Lib.
 
 (* (1) TOTALITY.  lint_raw makes every dict access `d[k]` of the code an explicit lookup whose failure is the outcome None (KeyError);
    it never happens.  (The shape of statements — exactly one key, required members — is the type [stmt]: schema-valid models.)
@@ -188,7 +188,12 @@ Theorem C18_pointless_fn_delete_partial : forall cfg lib url_rel lint_lines,
 Proof. exact final_pointless_fn_delete_partial. Qed.
 Print Assumptions C18_pointless_fn_delete_partial.
 
-(* the premise on the library is satisfiable, also by a library that calls back into script functions *)
+(* the premise on the library holds for the library model the interpreter checks run (Model/LibCore.v: it never looks at the
+   function table or the counter), and for a library that calls back into script functions *)
+Theorem C18_libcore_meets_the_premise : forall cfg ok, lib_ok (libcore cfg) ok.
+Proof. exact libcore_lib_ok. Qed.
+Print Assumptions C18_libcore_meets_the_premise.
+
 Theorem C18_lib_premise_satisfiable : forall ok, lib_ok toy_lib ok.
 Proof. exact final_lib_premise_satisfiable. Qed.
 Print Assumptions C18_lib_premise_satisfiable.
